@@ -225,6 +225,10 @@ class IndexedCache:
         if not index:
             self.flat_cache.add(output)
             return
+        if not self.keys:
+            # an index without keys (the cache of a comparison between two literals) has no level to store anything under:
+            # it must not record coverage either, or every later lookup is answered from an empty index.
+            return
         # an assignment that binds none of the keys is stored under wildcards on all levels like any other partial
         # assignment, so that retrieve() finds it (the coverage check considers it as covering every lookup).
 
